@@ -121,7 +121,10 @@ def histories():
     h4 = [('new_client', A, [v('lA')]), ('add_version', A, [v('v1'), v('p1'), seg('s1')]), ('add_version', A, [v('v3'), v('p3'), seg('s3')]),
           ('set_snapshot', A, [v('sv1'), ts('t1'), cnt('c1'), seg('d1')]), ('set_snapshot', A, [v('sv3'), ts('t3'), cnt('c3'), seg('d3')]),
           ('get_snapshot_data', A, [v('g1')]), ('get_client', A, [])]
-    return {'two clients: versions': h1, 'two clients: snapshots': h2, 'unknown client': h3, 'snapshot after snapshot': h4}
+    # a write whose transaction is dropped without commit must leave no trace (the `!` marks it)
+    h5 = [('new_client', A, [v('lA')]), ('add_version', A, [v('v1'), v('p1'), seg('s1')]), ('!add_version', A, [v('v3'), v('p3'), seg('s3')]),
+          ('!set_snapshot', A, [v('sv1'), ts('t1'), cnt('c1'), seg('d1')]), ('get_version_by_parent', A, [v('p3')]), ('get_version', A, [v('v3')]), ('get_client', A, [])]
+    return {'two clients: versions': h1, 'two clients: snapshots': h2, 'unknown client': h3, 'snapshot after snapshot': h4, 'abandoned transaction': h5}
 
 
 def open_time_dml(prog):
@@ -227,6 +230,12 @@ def run_history(task):
                 out['paths'] += 1
                 return
             method, cid, args = hist[k]
+            abandoned = method.startswith('!')
+            method = method.lstrip('!')
+            if abandoned and backend == 'imem':
+                # (the in-memory backend documents that it panics instead of rolling back)
+                explore(st, k + 1)
+                return
             if reopen_fn is not None and not reopened and method.startswith('get_'):
                 # "the server was restarted here": whatever data-changing statements the glue issues
                 # when it opens the database run before the read (none on the pinned tree)
@@ -234,6 +243,9 @@ def run_history(task):
                     explore(s2, k, True)
                 return
             sp = st.spec
+            if abandoned:
+                import copy as _copy
+                keep = _copy.deepcopy(sp)
             # the reference's verdict for this call, on the state BEFORE it
             if method == 'new_client':
                 pre, ok = sp.new_client(cid, args[0])
@@ -257,7 +269,13 @@ def run_history(task):
             st.cons = st.cons + [pre]
             if not it.feasible(st.cons):
                 return
+            if abandoned:
+                st.spec = keep   # the contract: nothing of an uncommitted transaction remains
             f = find(prog, method)
+            if backend != 'imem':
+                # what SqliteStorage::txn does first: BEGIN (s_exclusive decides mode and connection)
+                st.root.v.db.close()
+                st.root.v.db.begin()
             if backend == 'imem':
                 guard = Opaque('Guard', inner=st.root)
                 fields = {'client_id': cid, 'guard': guard, 'written': False, 'committed': False}
@@ -290,6 +308,26 @@ def run_history(task):
                 if not it.feasible(s.cons):
                     continue
                 s.hres = s.hres + [r['kind']]
+                if backend != 'imem':
+                    # the transaction ends: commit() of the glue, or the Txn is dropped (its Drop
+                    # impl, if the glue has one, runs; then the connection closes = rollback)
+                    end_fn = None
+                    if method in ('new_client', 'add_version', 'set_snapshot') and not abandoned and r['kind'] == 'ok':
+                        end_fn = find(prog, 'commit')
+                    else:
+                        dc = [fn for n, fn in prog.funcs.items() if n.endswith('::drop') and fn.args and re.match(r'^&mut Txn\b', fn.args[0][1])]
+                        end_fn = dc[0] if len(dc) == 1 else None
+                    if end_fn is not None:
+                        fields2 = {'client_id': cid, 'con': s.root.v}
+                        txn2 = Agg('Txn', 'Txn', 0, [fields2[n] for n in txn_fields])
+                        for (s3, rv3) in it.run_function(end_fn, [Ref(Cell(txn2))], s):
+                            if end_fn.name.endswith('::commit'):
+                                r3 = ic.flat_result(L, 'commit', rv3)
+                                check(s3, 'c05.%s.h' % TAG + ' commit: succeeds after a successful write', z3.BoolVal(r3['kind'] == 'ok'))
+                            s3.root.v.db.close()
+                            explore(s3, k + 1)
+                        continue
+                    s.root.v.db.close()
                 explore(s, k + 1)
                 _ = tag
         explore(st0, 0)
@@ -312,6 +350,8 @@ def script_of_model(hist, m, upto, reopen=False):
     ids = set()
     clients = []
     for method, cid, args in hist:
+        abandoned = method.startswith('!')
+        method = method.lstrip('!')
         c = val(cid)
         if c not in clients:
             clients.append(c)
@@ -319,7 +359,11 @@ def script_of_model(hist, m, upto, reopen=False):
         for x, t in zip(a, args):
             if t.size() == 128:
                 ids.add(x)
-        step = {'client': c, 'calls': [[method] + a] + ([['commit']] if method in ('new_client', 'add_version', 'set_snapshot') else [])}
+        step = {'client': c, 'calls': [[method] + a] + ([['commit']] if method in ('new_client', 'add_version', 'set_snapshot') and not abandoned else [])}
+        if abandoned:
+            if not reopen:
+                continue   # (not part of the in-memory histories)
+            step['abandoned'] = True
         if reopen and method.startswith('get_'):
             step['reopen'] = True
         steps.append(step)
